@@ -5,17 +5,19 @@ floors of the check decide whether that is enough (otherwise the run is inconclu
 """
 import time
 
+from .env import real_monotonic
+
 STATE = dict(deadline=None, boxed=False)
 
 
 def start(soft_seconds):
-    STATE['deadline'] = (time.monotonic() + soft_seconds) if soft_seconds else None
+    STATE['deadline'] = (real_monotonic() + soft_seconds) if soft_seconds else None
     STATE['boxed'] = False
 
 
 def expired():
     d = STATE['deadline']
-    if d is not None and time.monotonic() > d:
+    if d is not None and real_monotonic() > d:
         STATE['boxed'] = True
         return True
     return False
